@@ -24,6 +24,8 @@ def run(ctx):
     monitor.enable(*monitors(ctx))
     from .. import w_suite
     w_suite.maybe(ctx)      # thorough tier: the repository's own tests under this property's monitors
+    from .. import w_misc
+    w_misc.drive_session(ctx, ctx.tier)   # long-lived signature objects through many operations
     ctx.floor('C16.merge', 300)
     ctx.floor('C16.after_raise', 100)
     ctx.floor('C16.aliasing_checked', 500)
